@@ -170,6 +170,7 @@ PROPS = {
         "units": [
             plain("c01", "TestReplayRegressions"),
             plain("c01", "TestReplayDepth"),
+            plain("c01", "TestReplayAnyFlag"),
             rapid("c01", "TestPropRoundTrip", quick=(15000, 6), thorough=(150000, 12)),
             rapid("c01", "TestPropRefusal", quick=(3000, 1), thorough=(30000, 2)),
             rapid("c01", "TestPropRefusalTail", quick=(3000, 1), thorough=(30000, 2)),
